@@ -1,5 +1,6 @@
 import Seccomp.Gen.Consts
 import Seccomp.Gen.Tables
+import Seccomp.Gen.GetInfo
 import Seccomp.Model.Policy
 import Seccomp.Model.Lower
 import Seccomp.Model.Spec
@@ -96,9 +97,10 @@ def rowHasTable (v : String) : Bool :=
   | some r => r.names != "" && (tableSizes.lookup r.names).getD 0 != 0
   | none => false
 
-/-- `arch.GetInfo("")` on a target whose `runtime.GOARCH` is `g` returns an error: the guard of
-    `GetInfo` is `!found || len(arch.SyscallNames) == 0` (see `unsupported_arch_errors`, first conjunct)
-    with `arch, found := arches[g]` -/
+/-- `arch.GetInfo("")` on a target whose `runtime.GOARCH` is `g` returns an error, read off the data:
+    `g` is no key of `arches`, or its row has no table.  That the function regenerated from the source
+    (`Gen.getInfoSkel`) answers exactly so on every target is the first conjunct of
+    `unsupported_arch_errors`. -/
 def getInfoDefaultErrors (g : String) : Bool :=
   match arches.lookup g with
   | none => true
@@ -304,12 +306,15 @@ theorem goarch_columns_consistent :
       (t.archKey = true → arches.lookup t.goarch = some t.archVar) := by
   decide +kernel
 
-/-- **Unsupported architectures error.**  `GetInfo` reports an error under the guard
-    `!found || len(arch.SyscallNames) == 0` (regenerated source text), and for every GOARCH of the
-    target list that is no key of `arches` (loong64, riscv64, wasm) or whose row has no table
-    (ppc64, ppc64le, s390x, mips, mipsle, mips64, mips64le) that guard is true for `GetInfo("")`. -/
+/-- **Unsupported architectures error.**  On every target of the list, the rendering of `GetInfo`
+    regenerated from the source (`Gen.getInfoSkel`, with `runtime.GOARCH` = the target's GOARCH and the
+    empty name, as `Policy.Assemble` calls it) returns an error exactly when the data say so
+    (`getInfoDefaultErrors`); and for every GOARCH of the target list that is no key of `arches`
+    (loong64, riscv64, wasm) or whose row has no table (ppc64, ppc64le, s390x, mips, mipsle, mips64,
+    mips64le) that is the case. -/
 theorem unsupported_arch_errors :
-    getInfoGuard = "!found || len(arch.SyscallNames) == 0" ∧
+    (∀ t ∈ targets, (match Gen.getInfoSkel t.goarch "" with | .err _ => true | _ => false) =
+        getInfoDefaultErrors t.goarch) ∧
     ∀ t ∈ targets, (t.archKey = false ∨ t.archTable = false) → getInfoDefaultErrors t.goarch = true := by
   decide +kernel
 
